@@ -99,8 +99,12 @@ def main():
                 'check_results': dict(meta.get('check_results', {}), **{c: {'exit': v['exit'], 'first_violation': v['first']}
                                                                        for c, v in res['checks'].items()}),
             })
-            if notes and 'needs_to_manifest' not in meta:
-                meta['agent_notes_excerpt'] = notes[:3000]
+            needs = json.load(open(os.path.join(VERIF, 'tools', 'seeded_needs.json'))).get('%s-%s' % (prop, n))
+            if needs:
+                meta['change'] = needs[0]
+                meta['needs_to_manifest'] = needs[1]
+            if notes:
+                meta['agent_notes_excerpt'] = notes[:2500]
             json.dump(meta, open(meta_path, 'w'), indent=1)
         print(json.dumps({k: v for k, v in res.items() if k != 'demo_patched_tail'}, indent=1))
         return 0 if res['confirmed'] and res['caught_by'] else 1
